@@ -193,10 +193,17 @@ Misc  == \/ \E i \in 1..MaxSurf, st \in BOOLEAN : InsertSurface(i, st)
          \/ \E i \in 1..MaxSurf : RemoveSurface(i)
          \/ "scale" \in Extras /\ \E s \in {2, 3} : ScaleSystem(s)
          \/ "saveload" \in Extras /\ \E how \in {"dict", "file"} : SaveLoad(how)
-NextBuild == Build
+(* Optic.reset(): the Optic is as newly constructed - no surfaces, no          *)
+(* wavelengths, no pickups, nothing carried over (the factory's pending       *)
+(* thickness included); whatever is built on it afterwards behaves like a     *)
+(* lens built on a fresh Optic.                                               *)
+Reset == /\ "reset" \in Extras /\ N >= 1
+         /\ surf' = <<>> /\ lastT' = 0 /\ wl' = <<>> /\ pk' = <<>> /\ tainted' = FALSE
+         /\ Call("reset", [x |-> 0])
+NextBuild == Build \/ Reset
 NextEdit  == N >= 3 /\ ((~tainted /\ (Edit \/ Pick)) \/ Misc
                        \/ (tainted /\ \E v \in Waves, p \in BOOLEAN : AddWavelength(v, p)))
-Next == Build \/ NextEdit
+Next == Build \/ NextEdit \/ Reset
 SpecBuild == Init /\ [][NextBuild]_vars
 SpecEdit  == Init /\ [][NextEdit]_vars
 Spec      == Init /\ [][Next]_vars
@@ -260,6 +267,7 @@ StructStep ==
       w0 == Len(wl)   w1 == Len(wl')
       P0 == PrimSet(wl)   P1 == PrimSet(wl')
   IN \/ <<n1, S1, w1, P1>> = <<n0, S0, w0, P0>>
+     \/ LS!AReset(n1, S1, w1, P1)
      \/ /\ <<w1, P1>> = <<w0, P0>>
         /\ \/ \E st \in BOOLEAN : LS!AAppend(st, n0, S0, n1, S1)
            \/ \E st \in BOOLEAN, i \in 1..n0 : LS!AInsert(i, st, n0, S0, n1, S1)
